@@ -61,6 +61,9 @@ theorem inv_runEvs {c : Cfg} (hv : Valid c.I) {s : State} (hi : Inv c s) (evs : 
   | nil => exact hi
   | cons e evs ih => exact ih (inv_stepEv hv hi e)
 
+theorem run_snoc (c : Cfg) (evs : List Ev) (e : Ev) : run c (evs ++ [e]) = (stepEv c (run c evs) e).1 := by
+  simp [run, runEvs, List.foldl_append]
+
 /-- the invariant holds after every history -/
 theorem inv_run {c : Cfg} (hv : Valid c.I) (evs : List Ev) : Inv c (run c evs) := inv_runEvs hv (inv_init c) evs
 
